@@ -499,6 +499,10 @@ func checkC13(c *Ctx) {
 						}
 					}
 					acs = append(acs, ac{"x`" + inner + "`y", "x" + want + "y"})
+					if tail == "" {
+						// … and what follows the pair is read on its own: another escape, a wrapped quote
+						acs = append(acs, ac{"x`" + inner + "``SP`y", "x" + want + " y"}, ac{"x`" + inner + "``”`y", "x" + want + "”y"}, ac{"x`" + inner + "`甲`LF`", "x" + want + "甲\n"})
+					}
 				}
 			}
 		}
@@ -509,6 +513,16 @@ func checkC13(c *Ctx) {
 		c.runBatches(areqs, 500, func(i int, req *Req, resp *Resp) {
 			c.Eval()
 			a := acs[i]
+			// where the documented rules admit more than one reading (what a closing backtick of a
+			// text that is no escape pairs with), the four-reading reference decides whether the
+			// case is judged at all
+			if ref := refDecode([]rune("“"+a.body+"”"), c13Families[0]); ref.kind != "value" {
+				c.Count("backtick_ascii_sweep_unspecified", 1)
+				return
+			} else if string(ref.val) != a.want {
+				c.Count("backtick_ascii_sweep_unspecified", 1)
+				return
+			}
 			c.Nontrivial("ascii-sweep|" + a.body[:min2(len(a.body), 6)] + "|" + resp.Kind)
 			c.Count("backtick_ascii_sweep", 1)
 			if resp.Kind != "ok" || len(resp.Toks) != 2 || RunesToString(resp.Toks[0].Lit) != a.want {
